@@ -2757,8 +2757,10 @@ pub fn freeze(env: &mut FreezeEnv, expr: &LocExpr) -> NRes<LocExpr> {
                         .iter()
                         .map(|x| match x {
                             ForIteration::Iteration(ty, lv, expr) => {
+                                // the iterated expression is evaluated in the enclosing scope,
+                                // before the pattern's names exist, so freeze it first
+                                let frozen_expr = box_freeze(&mut env2, expr)?;
                                 // have to bind first so box_freeze_lvalue works
-                                // also recursive functions work ig
                                 env2.bind(lv.collect_identifiers(
                                     match ty {
                                         ForIterationType::Normal => false,
@@ -2769,7 +2771,7 @@ pub fn freeze(env: &mut FreezeEnv, expr: &LocExpr) -> NRes<LocExpr> {
                                 Ok(ForIteration::Iteration(
                                     *ty,
                                     box_freeze_lvalue(&mut env2, lv)?,
-                                    box_freeze(&mut env2, expr)?,
+                                    frozen_expr,
                                 ))
                             }
                             ForIteration::Guard(expr) => {
